@@ -186,6 +186,10 @@ func createFilesInTar(info *nfpm.Info, tw *tar.Writer) ([]MtreeEntry, int64, err
 
 	for _, content := range info.Contents {
 		content.Destination = files.AsRelativePath(content.Destination)
+		if content.Destination == "" {
+			// the root directory itself: it has no name inside the archive
+			continue
+		}
 		if content.FileInfo != nil {
 			content.FileInfo.MTime = content.FileInfo.MTime.Truncate(time.Second)
 		}
